@@ -53,7 +53,7 @@ inductive CbKind | startup | discover | connect | release
 
 /-- events of the observable history -/
 inductive Ev
-  | call (s : Site)
+  | call (s : Site) (a : Ans)                        -- a driver/collaborator call and the answer it got
   | sleep
   | term (b : Bool)                                   -- terminate() was asked and said b
   | cb (r : Role) (k : CbKind) (code : Nat) (dflt : Bool)  -- callback ran and returned the value with this code
@@ -75,8 +75,8 @@ def St.emit (s : St) (e : Ev) : St := { s with log := s.log ++ [e] }
 /-- consume one answer at `site` (logged); exhausted script answers `nothing` -/
 def St.ask (s : St) (site : Site) : Ans × St :=
   match s.env with
-  | [] => (.nothing, { s with n := s.n + 1, log := s.log ++ [.call site] })
-  | a :: r => (a, { s with env := r, n := s.n + 1, log := s.log ++ [.call site] })
+  | [] => (.nothing, { s with n := s.n + 1, log := s.log ++ [.call site .nothing] })
+  | a :: r => (a, { s with env := r, n := s.n + 1, log := s.log ++ [.call site a] })
 
 /-- answers that raise wherever they are consumed -/
 def Ans.raises : Ans → Option Exc
